@@ -403,6 +403,7 @@ type StickyRun struct {
 	Plan    []PlanEntry                `json:"plan"`
 	RawPlan sarama.BalanceStrategyPlan `json:"-"`
 	Other   map[string]int             `json:"other,omitempty"`
+	Score   []int                      `json:"score,omitempty"`
 }
 
 func tps(l []sarama.VerifTP) []TP {
@@ -460,6 +461,7 @@ func RunStickyOn(inst *sarama.VerifSticky, in Input) StickyRun {
 	defer tr.Mu.Unlock()
 	run.Hooked = tr.Events > 0
 	run.Other = tr.Other
+	run.Score = tr.Score
 	run.Err = err != nil
 	run.Panic = panicked
 	if plan != nil {
@@ -1035,7 +1037,9 @@ func NearBalanced(r *rand.Rand, maxM, maxT, maxP, k int) (Input, bool) {
 	for p := range own {
 		parts = append(parts, p)
 	}
-	sort.Slice(parts, func(i, j int) bool { return parts[i].T < parts[j].T || (parts[i].T == parts[j].T && parts[i].P < parts[j].P) })
+	sort.Slice(parts, func(i, j int) bool {
+		return parts[i].T < parts[j].T || (parts[i].T == parts[j].T && parts[i].P < parts[j].P)
+	})
 	if len(parts) == 0 {
 		return in, false
 	}
@@ -1074,7 +1078,9 @@ func Spice(r *rand.Rand, in *Input, ghost bool) {
 	if ghost && r.Intn(2) == 0 {
 		k := r.Intn(len(in.Members))
 		in.Members[k].Topics = append(in.Members[k].Topics, "ghost")
-		r.Shuffle(len(in.Members[k].Topics), func(a, b int) { in.Members[k].Topics[a], in.Members[k].Topics[b] = in.Members[k].Topics[b], in.Members[k].Topics[a] })
+		r.Shuffle(len(in.Members[k].Topics), func(a, b int) {
+			in.Members[k].Topics[a], in.Members[k].Topics[b] = in.Members[k].Topics[b], in.Members[k].Topics[a]
+		})
 	}
 }
 
